@@ -648,6 +648,18 @@ func (i *interpreter) fresh(kind string, tag string, k types.BasicKind) value {
 	}
 	t := i.ts().Var(name, s)
 	p.inputs = append(p.inputs, InputRec{Kind: kind, Tag: tag, Var: name, term: t, gokind: k})
+	if fx, ok := fixedInputs[tag]; ok && n == 0 && s != sortFP {
+		if s == sortBool {
+			if fx != 0 {
+				p.addPC(t)
+			} else {
+				p.addPC(i.ts().Not(t))
+			}
+		} else {
+			w, _ := kindWidth(k)
+			p.addPC(i.ts().Eq(t, i.ts().BV(uint64(fx), w)))
+		}
+	}
 	return symv{t, k}
 }
 
